@@ -579,7 +579,9 @@ def evaluate_z3_seq_extract(
         construct_result(
             lambda args: cast(str, args[0])[
                 cast(int, args[1]) : cast(int, args[1]) + cast(int, args[2])
-            ],
+            ]
+            if 0 <= cast(int, args[1]) and 0 < cast(int, args[2])
+            else "",
             children_results,
         )
     )
